@@ -3,6 +3,7 @@ package main
 import (
 	"errors"
 	"fmt"
+	"io"
 	"math/rand"
 
 	gots "github.com/Comcast/gots/v2"
@@ -132,6 +133,9 @@ func c17History(r *rand.Rand) []Ev {
 		pred["done"] = 1 + r.Intn(120)
 		pred["fail"] = 1 + r.Intn(120)
 	}
+	if GI(pred["fail"]) > 0 && r.Intn(2) == 0 {
+		pred["errkind"] = 1 + r.Intn(4) // the predicate fails with one of the library's own error values
+	}
 	var h []Ev
 	for s := 0; s < steps; s++ {
 		if r.Intn(12) == 0 {
@@ -167,8 +171,10 @@ func (c17) GenRows(rows []Ev, tier string, seed int64, emit func([]Ev)) {
 
 // c17Acc: one real accumulator of a history with what it handed out so far.
 type c17Acc struct {
-	acc   packet.Accumulator
-	snaps []c17Snap
+	acc     packet.Accumulator
+	predErr error // what the predicate fails with
+	fired   bool  // the predicate returned its error during the current call
+	snaps   []c17Snap
 	// what Bytes() / Packets() returned after the last call on this accumulator (calls on other accumulators must not change it)
 	lastB  string
 	lastPk []packet.Packet
@@ -183,15 +189,22 @@ type c17Snap struct {
 	wb   string
 }
 
+// c17PredErrs: the error a failing predicate returns - the harness sentinel, or one of the library's own sentinels
+// (a predicate may forward the error of another accumulator or reader): it is the predicate's error all the same.
+var c17PredErrs = []error{errPred, gots.ErrAccumulatorDone, gots.ErrNoPayloadUnitStartIndicator, io.EOF, gots.ErrInvalidPacketLength}
+
 func c17New(pr map[string]interface{}) *c17Acc {
 	done, fail := GI(pr["done"]), GI(pr["fail"])
-	return &c17Acc{acc: packet.NewAccumulator(func(b []byte) (bool, error) {
+	a := &c17Acc{predErr: c17PredErrs[GI0(pr["errkind"])%len(c17PredErrs)]}
+	a.acc = packet.NewAccumulator(func(b []byte) (bool, error) {
 		if fail > 0 && len(b) >= fail {
 			// the error has priority, also when the predicate says "complete" in the same breath
-			return done > 0 && len(b) >= done, errPred
+			a.fired = true
+			return done > 0 && len(b) >= done, a.predErr
 		}
 		return done > 0 && len(b) >= done, nil
-	})}
+	})
+	return a
 }
 
 func (c17) Exec(h []Ev) []Ev {
@@ -252,8 +265,13 @@ func (c17) Exec(h []Ev) []Ev {
 				copy(p[:], GB(e["pkt"]))
 				orig := p
 				written[i], writtenTo[i] = append([]byte(nil), p[:]...), ai
+				cur.fired = false
 				_, err := acc.WritePacket(&p)
 				e["input_same"] = p == orig
+				switch {
+				case cur.fired && err == cur.predErr:
+					err = errPred // the predicate's own error came back, whatever value it has
+				}
 				switch err {
 				case nil:
 					e["err"] = "nil"
